@@ -288,3 +288,25 @@ def classes(value_cps):
                  "backslash" if c == 0x5C else "ctl00-19" if c < 0x1A else "ctl1a-1f" if c < 0x20 else "del" if c == 0x7F else
                  "latin1" if c < 0x100 else "bmp" if c < 0x10000 else "astral")
     return "+".join(sorted(tags)) or "cookie-octets"
+
+
+# ---------------------------------------------------------------------- request cookie strings (model drift only)
+PARSE_ATOMS = ["a", "b", "k", "=", "=", ";", "; ", " ", "\t", '"', '"', "\\", "\\073", "\\\"", "\\\\", "\\400", "\\08", "\n", "\r\n", "\x0b", "\x1c",
+               "\xa0", " ", "é", "\\303\\251", "\\303", ",", "==", ";;", ' "x" ', "v=1", "\x00", "😀"]
+
+
+def rand_cookie_string(seed):
+    rng = random.Random(seed)
+    return "".join(rng.choice(PARSE_ATOMS) for _ in range(rng.choice([1, 2, 3, 4, 6, 9, 14])))
+
+
+def run_parse(s):
+    """an arbitrary Cookie header through sansio parse_cookie; compared with the scanner model (drift only)"""
+    from werkzeug.sansio import http as sansio_http
+
+    line = {"op": "parse", "flow": "parse_cookie", "hdr": cps(s), "got": [], "perr": ""}
+    try:
+        line["got"] = _pairs(sansio_http.parse_cookie(s))
+    except Exception as e:
+        line["perr"] = type(e).__name__
+    return line
